@@ -39,8 +39,8 @@ def judge(stim, ev):
             if ob["vdef"] != f'="{user}"':
                 return f"{f}: (send inst :v) is {ob['vdef']}, want the method of {user[5:]}"
         elif ex["getv"] == "val":
-            if ob["vdef"] != f'="{ex["vfrom"]}"':
-                return f"{f}: default of v is {ob['vdef']}, want the one declared by {ex['vfrom']}"
+            if ob["vdef"] != ("=nil" if ex["vbare"] else f'="{ex["vfrom"]}"'):
+                return f"{f}: default of v is {ob['vdef']}, want the one declared by {ex['vfrom']}{' (declared without a default: nil)' if ex['vbare'] else ''}"
         elif ob["vdef"].startswith("="):
             return f"{f}: no flavor in its precedence answers :v but it answered {ob['vdef']}"
         # the init keyword :v exists when a flavor of the precedence list declares v
@@ -60,6 +60,10 @@ def run(tier, seed):
     vdrive = common.build_harness()
     rows, g = gen.bfs(SPEC, "Flavors", "Flavors.cfg", {"MaxOps": depth}, timeout=3000)
     stimuli = to_stim(rows)
+    # ... and with flavors that declare the variable without a default (its nil counts in the inheritance), one level less
+    rows1, g1 = gen.bfs(SPEC, "Flavors", "Flavors.cfg", {"MaxOps": depth - 1, "VarKinds": '{"", "var", "bare"}'}, timeout=3000)
+    have = {json.dumps(r["hist"], sort_keys=True) for r in rows}
+    stimuli += to_stim([r for r in rows1 if json.dumps(r["hist"], sort_keys=True) not in have])
     n_bfs = len(stimuli)
     sims = []
     for k in range(1 if tier == "quick" else 3):
@@ -72,6 +76,10 @@ def run(tier, seed):
         rows3 = rows3[seed % 4::4]
     stimuli += to_stim(rows3)
     sims.append(g3)
+    # directed histories: a defmethod that is rejected, followed by a real one (NextBad): nothing of the rejected form stays
+    rows4, g4 = gen.bfs(SPEC, "Flavors", "FlavorsWide.cfg", {}, timeout=3000, subst={"NEXT NextWide": "NEXT NextBad", "INVARIANT EmitWide": "INVARIANT EmitBad"})
+    stimuli += to_stim(rows4)
+    sims.append(g4)
     for i, s in enumerate(stimuli):
         s["id"] = i + 1
     open_feats = {f["feature"]: f for f in common.load_findings(PROP) if f.get("status") == "open"}
